@@ -390,6 +390,27 @@ pub fn shared() {
             put(&r.unwrap_or_else(|p| json!({"kind0": "shared", "what": format!("error-body-{name}"), "ok": false, "panic": p})));
         }
     }
+    // a raw-body endpoint with an optional Content-Type header field: absent stays absent, every accepted value survives
+    {
+        use ruma_client_api::media::create_content::v3::Request as Upload;
+        for (name, ct) in [("absent", None), ("ascii", Some("image/png")), ("parameter", Some("text/plain; charset=utf-8")), ("non-ascii", Some("text/plain; title=\u{e9}"))] {
+            let r = guard(|| {
+                let mut req = Upload::new(vec![1, 2, 3]);
+                req.content_type = ct.map(|c| c.to_owned());
+                req.filename = Some("f.bin".to_owned());
+                match req.clone().try_into_http_request::<Vec<u8>>("https://h.s", SendAccessToken::IfRequired("tok"), &[MatrixVersion::V1_11]) {
+                    // a value the encoder refuses is not in the scope of the round trip
+                    Err(e) => json!({"kind0": "shared", "what": format!("raw-body-content-type-{name}"), "ok": true, "refused": e.to_string()}),
+                    Ok(http) => {
+                        let back = Upload::try_from_http_request(http, &[] as &[String]);
+                        let ok = matches!(&back, Ok(b) if b.content_type == req.content_type && b.file == req.file && b.filename == req.filename);
+                        json!({"kind0": "shared", "what": format!("raw-body-content-type-{name}"), "ok": ok, "back": format!("{:?}", back.map(|b| b.content_type))})
+                    }
+                }
+            });
+            put(&r.unwrap_or_else(|p| json!({"kind0": "shared", "what": format!("raw-body-content-type-{name}"), "ok": false, "panic": p})));
+        }
+    }
     // filters: every field alone
     use ruma_client_api::filter::{FilterDefinition, RoomEventFilter};
     let full = json!({"limit": 5, "not_senders": ["@a:s.co"], "not_types": ["m.x"], "senders": ["@b:s.co"], "types": ["m.y"], "not_rooms": ["!a:s.co"], "rooms": ["!b:s.co"],
